@@ -181,6 +181,18 @@ class Z3Alg:
 
     def pow(self, a, n):
         """x**y with a symbolic exponent: uninterpreted; ground axioms: x>0 => x**y>0; x>=1 and y<=0 => x**y<=1."""
+        if isinstance(n, Fraction) and 1 < n.denominator <= 6:
+            # a**(p/q) for a >= 0: fresh root r >= 0 with r**q == a
+            a = self._num(a)
+            r = self.ctx.fresh("root%d" % n.denominator, "real")
+            rq = r.v
+            for _ in range(n.denominator - 1):
+                rq = rq * r.v
+            self.ctx.assume(z3.And(r.v >= 0, rq == a), silent=True)
+            out = r.v
+            for _ in range(abs(n.numerator) - 1):
+                out = out * r.v
+            return out if n.numerator > 0 else 1 / out
         f = self.ctx.ufun("pow", ["real", "real"], "real")
         a, n = self._num(a), self._num(val(n))
         t = f.term(a, n)
